@@ -58,7 +58,7 @@ inductive Kind where
   | view (f : ViewFn)
   | takeArr (idx : List Int)        -- `x[int_array]` (GetItem that copies)
   | setitem (key : SetKey)
-  | unview (chain : List ViewFn)
+  | unview (chain : List ViewFn) (layout : List Int)
   | applyMask (mask : Shape × List Bool)
   deriving DecidableEq, Repr, Inhabited
 
@@ -125,6 +125,22 @@ def Heap.write (h : Heap) (a : Arr) (vals : List Int) : Heap :=
 def Heap.newArr (h : Heap) (v : Val) : Heap × Arr :=
   let (h, b) := h.fresh
   ({ h with bufs := insert b v.2 h.bufs }, ⟨b, Desc.contig 0 v.1⟩)
+
+/-- a fresh owning array holding `v` with the given (dense) strides -/
+def Heap.newArrStrided (h : Heap) (strides : List Int) (v : Val) : Heap × Arr :=
+  let (h, b) := h.fresh
+  let a : Arr := ⟨b, ⟨0, v.1, strides⟩⟩
+  let h := { h with bufs := insert b (List.replicate (size v.1) 0) h.bufs }
+  (h.write a v.2, a)
+
+/-- a fresh F-ordered (column-major) array, e.g. `np.asfortranarray(x)` -/
+def Heap.newArrF (h : Heap) (v : Val) : Heap × Arr :=
+  h.newArrStrided ((fstrides v.1).map Int.ofNat) v
+
+/-- `arr.copy()` / `np.copy(arr, order='K')`: a fresh array with the values and memory *layout* of `a` -/
+def Heap.copyArrK (h : Heap) (a : Arr) : Heap × Arr :=
+  if a.d.isCContig then h.newArr (h.val a)
+  else h.newArrStrided (korderStrides a.d.shape a.d.strides) (h.val a)
 
 /-! ## element-wise kernels with broadcasting -/
 
@@ -313,8 +329,9 @@ def vjp (h : Heap) (o : OpRec) (index : Nat) (g : Val) : Except Err Val :=
           if size selSh = size bsh then .ok (bsh, sel')
           else .ok (List.replicate (bsh.length - selSh.length) 1 ++ selSh, sel')
         else .ok (selSh, sel')
-  | .unview chain =>
-    -- positions of the view inside the base, by replaying the chain on a contiguous window
+  | .unview chain layout =>
+    -- The gradient is copied into an array laid out like the base's data (`layout` = its strides) and the
+    -- chain is replayed on that copy; `ps` = the logical indices of the base that the view occupies.
     let rec go (fs : List ViewFn) (d : Desc) : Except Err Desc :=
       match fs with
       | [] => .ok d
@@ -322,11 +339,14 @@ def vjp (h : Heap) (o : OpRec) (index : Nat) (g : Val) : Except Err Val :=
         | .ok (d', true) => go r d'
         | .ok (_, false) => .error .assertion
         | .error e => .error e
-    match go chain (Desc.contig 0 g.1) with
+    let d0 : Desc := ⟨0, g.1, layout⟩
+    match go chain d0 with
     | .error e => .error e
     | .ok d =>
-      if index = 0 then .ok (g.1, d.positions.foldl (fun acc p => acc.set p 0) g.2)
-      else .ok (d.shape, gather d.positions g.2)
+      let mem := d0.positions
+      let ps := d.positions.map fun p => mem.idxOf p
+      if index = 0 then .ok (g.1, ps.foldl (fun acc p => acc.set p 0) g.2)
+      else .ok (d.shape, gather ps g.2)
   | .applyMask m =>
     if index = 0 then .ok g
     else match broadcastMask m g.1 with
